@@ -37,6 +37,57 @@ class _AndToAmp(ast.NodeTransformer):
         return r
 
 
+def load_module_functions(relpath, ns, required):
+    """exec EVERY top-level function definition of the file into ns (so that private helpers a function relies
+    on are available); only the `required` ones must exist and compile."""
+    path = os.path.join(shim.REPO, relpath)
+    tree = ast.parse(open(path).read())
+    found = set()
+    for n in tree.body:
+        if isinstance(n, ast.FunctionDef):
+            n.decorator_list = []
+            mod = ast.Module([n], []); ast.fix_missing_locations(mod)
+            try:
+                exec(compile(mod, path, 'exec'), ns)
+                found.add(n.name)
+            except Exception:
+                if n.name in required:
+                    raise
+    missing = set(required) - found
+    if missing:
+        raise shim.TraceError('%s: function(s) %s not found' % (relpath, sorted(missing)))
+    return ns
+
+
+def sym_all(it):
+    """all(...) over python booleans and symbolic conditions (no short circuit on symbolic ones)"""
+    r = None
+    for x in it:
+        if isinstance(x, (bool, _np.bool_)):
+            if not x: return False
+            continue
+        x = x if isinstance(x, shim.B) else shim.B.lift(x)
+        if x.op == 'const':
+            if not x.a[0]: return False
+            continue
+        r = x if r is None else (r & x)
+    return True if r is None else r
+
+
+def sym_any(it):
+    r = None
+    for x in it:
+        if isinstance(x, (bool, _np.bool_)):
+            if x: return True
+            continue
+        x = x if isinstance(x, shim.B) else shim.B.lift(x)
+        if x.op == 'const':
+            if x.a[0]: return True
+            continue
+        r = x if r is None else (r | x)
+    return False if r is None else r
+
+
 def _ends_with_return(body):
     return bool(body) and isinstance(body[-1], ast.Return)
 
@@ -101,8 +152,8 @@ def trace():
     g = Gen()
     info = {}
     # ------------------------------------------------------------------ NumPy API
-    ns = shim.base_namespace()
-    shim.load(NP, ['rotmatx', 'rotmaty', 'rotmatz', 'rotate_point', 'tilt_towards'], ns)
+    ns = shim.base_namespace({'all': sym_all, 'any': sym_any})
+    load_module_functions(NP, ns, ['rotmatx', 'rotmaty', 'rotmatz', 'rotate_point', 'rotate_points', 'tilt_towards'])
     a = shim.var('a')
     for ax in 'xyz':
         _mat(g, 'n_rotmat' + ax, A1, ns['rotmat' + ax](a))
@@ -137,7 +188,9 @@ def trace():
     for k in range(3):
         g.add('n_tilt_%d' % k, L3 + K3, t[k])
     # bring_plane_to_origin calls rotate_points (if-converted above) with negated angles and the reversed mode
-    shim.load(RP, ['bring_plane_to_origin'], ns)
+    keep = ns['rotate_points']
+    load_module_functions(RP, ns, ['bring_plane_to_origin'])
+    ns['rotate_points'] = keep
     cen = [shim.var('c_%d' % k) for k in range(3)]
     for m in REVERSIBLE:
         r = ns['bring_plane_to_origin'](shim.sym('p', (2, 3)), None, center=list(cen), angles=list(ang), mode=m)
@@ -146,8 +199,8 @@ def trace():
             for k in range(3):
                 g.add('n_bpo_%s_%d_%d' % (m, i, k), P2 + A3 + ['c_0', 'c_1', 'c_2'], r[i, k])
     # ------------------------------------------------------------------ PyTorch API
-    ns2 = shim.base_namespace()
-    shim.load(TP, ['rotmatx', 'rotmaty', 'rotmatz', 'get_rotation_matrix', 'rotate_points', 'tilt_towards'], ns2)
+    ns2 = shim.base_namespace({'all': sym_all, 'any': sym_any})
+    load_module_functions(TP, ns2, ['rotmatx', 'rotmaty', 'rotmatz', 'get_rotation_matrix', 'rotate_points', 'tilt_towards'])
     for ax in 'xyz':
         _mat(g, 't_rotmat' + ax, A1, ns2['rotmat' + ax](shim.sym('a', (1,)).reshape(1) if False else shim.wrap([shim.var('a')])))
     for m in MODES:
